@@ -257,7 +257,12 @@ func checkC11(c *Ctx) {
 				continue
 			}
 			ok := false
-			for _, in := range instrsOf(fn) {
+			// returns that end the API call (also those of a helper whose results it forwards)
+			ends := map[*ssa.Return]bool{}
+			for _, r := range returnsDeep(fn) {
+				ends[r] = true
+			}
+			for _, in := range instrsDeep(fn) {
 				sel, isSel := in.(*ssa.Select)
 				if !isSel || !sel.Blocking {
 					continue
@@ -271,7 +276,7 @@ func checkC11(c *Ctx) {
 				if doneIdx < 0 {
 					continue
 				}
-				for _, b := range fn.Blocks {
+				for _, b := range sel.Parent().Blocks {
 					iff, isIf := b.Instrs[len(b.Instrs)-1].(*ssa.If)
 					if !isIf {
 						continue
@@ -281,7 +286,7 @@ func checkC11(c *Ctx) {
 					k, okK := constInt(f.Y)
 					if f.Op == token.EQL && isE && okK && e.Tuple == ssa.Value(sel) && e.Index == 0 && int(k) == doneIdx {
 						arm := b.Succs[0]
-						if ret, isRet := arm.Instrs[len(arm.Instrs)-1].(*ssa.Return); isRet && !isNilConst(retResult(ret, 1)) {
+						if ret, isRet := arm.Instrs[len(arm.Instrs)-1].(*ssa.Return); isRet && ends[ret] && !isNilConst(retResult(ret, 1)) {
 							ok = true
 						}
 					}
@@ -449,7 +454,33 @@ func (d *dkgModel) ruleMonitor(c *Ctx, rule string) {
 	// (b) in the monitor's goroutine: on the Done arm Signal/Broadcast with the lock held
 	okB := false
 	la := NewLockAnalysis(m, d.sl, d.b.pkg)
-	for _, f := range WithAnon(mon) {
+	// the monitor's own code: its literals, its helpers, and whatever it starts with `go` (a literal or a
+	// named method alike)
+	monFns := WithAnon(mon)
+	for i := 0; i < len(monFns) && i < 32; i++ {
+		for _, in := range instrsOf(monFns[i]) {
+			var g *ssa.Function
+			switch x := in.(type) {
+			case *ssa.Go:
+				g = staticCallee(&x.Call)
+			case *ssa.Call:
+				g = isHelperCall(x)
+			}
+			if g == nil || g.Pkg != mon.Pkg {
+				continue
+			}
+			for _, h := range WithAnon(g) {
+				dup := false
+				for _, e := range monFns {
+					dup = dup || e == h
+				}
+				if !dup {
+					monFns = append(monFns, h)
+				}
+			}
+		}
+	}
+	for _, f := range monFns {
 		for _, in := range instrsOf(f) {
 			cl, ok := in.(*ssa.Call)
 			if !ok {
